@@ -3,8 +3,13 @@
 //!   D  SymbolFile::fill_symbol(&module, &mut recording FrameSymbolizer)      (callback order)
 //!   S  minidump_unwind::walk_stack on a one-frame CallStack (-> fill_source_line_info, which
 //!      reverses the inlines) with a Symbolizer over a string symbol supplier
-//! case:  M <mbase> <msize> Q <n> <instr>*n R <item>*      (see ocaml/c11/main.ml)
-//! answer: T<tables>;D<out>/S<out>;...    names are printed as the integer they encode.
+//!      the module list is [(mbase, msize), extra modules…]; modules without symbols are unknown to the supplier
+//!   G  Symbolizer::get_symbol_at_address(debug_file, debug_id, instr)   (module base 0, name only)
+//! case:  M <mbase> <msize> [X <k> (<base> <size> <hassym>)*k] Q <n> <instr>*n R <item>*   (see ocaml/c11/main.ml)
+//! answer: T<tables>;D<out>/S<idx>:<out>/G<name>;...    names are printed as the integer they encode.
+//! Names are rendered as letter + 4 digits + a decoration chosen by the number (spaces, parentheses,
+//! templates, non-ASCII, tabs): String order is still the integer order, and every name flows through the
+//! real parser; FUNC/PUBLIC get the `m` flag when the name number is divisible by 3.
 use breakpad_symbols::{FrameSymbolizer, SimpleModule, SymbolFile};
 use minidump::system_info::{Cpu, Os};
 use minidump::*;
@@ -26,9 +31,25 @@ fn block_on<F: Future>(f: F) -> F::Output {
     }
 }
 
-/// names are one letter + fixed-width decimal: string order = numeric order
+/// names are one letter + fixed-width decimal (+ decoration): string order = numeric order
 fn nm(s: &str) -> String {
-    s[1..].parse::<u64>().expect("name").to_string()
+    s[1..5].parse::<u64>().expect("name").to_string()
+}
+const DECOR: [&str; 8] = [
+    "",
+    " (anonymous namespace)::f<int, char const*>(void*) const",
+    " h\u{e9}llo w\u{f6}rld \u{3bb}\u{2192}\u{1f600}",
+    "\tTab\there",
+    "  two  spaces  ",
+    "::operator()(unsigned long) [clone .cold]",
+    " m 10 20 PUBLIC FUNC INLINE_ORIGIN",
+    "`anonymous namespace'::<lambda_1>::operator()",
+];
+fn name(letter: char, n: u64) -> String {
+    format!("{}{:04}{}", letter, n, DECOR[(n % 8) as usize])
+}
+fn mflag(n: u64) -> &'static str {
+    if n % 3 == 0 { "m " } else { "" }
 }
 
 #[derive(Default)]
@@ -89,19 +110,19 @@ fn render(t: &mut Toks) -> String {
         match k {
             "F" => {
                 let (id, name) = (t.u64(), t.u64());
-                writeln!(text, "FILE {} s{:04}", id, name).unwrap();
+                writeln!(text, "FILE {} {}", id, self::name('s', name)).unwrap();
             }
             "O" => {
                 let (id, name) = (t.u64(), t.u64());
-                writeln!(text, "INLINE_ORIGIN {} o{:04}", id, name).unwrap();
+                writeln!(text, "INLINE_ORIGIN {} {}", id, self::name('o', name)).unwrap();
             }
             "P" => {
                 let (a, ps, name) = (t.u64(), t.u64(), t.u64());
-                writeln!(text, "PUBLIC {:x} {:x} p{:04}", a, ps, name).unwrap();
+                writeln!(text, "PUBLIC {}{:x} {:x} {}", mflag(name), a, ps, self::name('p', name)).unwrap();
             }
             "U" => {
                 let (a, s, ps, name) = (t.u64(), t.u64(), t.u64(), t.u64());
-                writeln!(text, "FUNC {:x} {:x} {:x} f{:04}", a, s, ps, name).unwrap();
+                writeln!(text, "FUNC {}{:x} {:x} {:x} {}", mflag(name), a, s, ps, self::name('f', name)).unwrap();
             }
             "L" => {
                 let (a, s, ln, fl) = (t.u64(), t.u64(), t.u64(), t.u64());
@@ -163,7 +184,16 @@ fn run(line: &str) -> String {
     assert_eq!(t.str(), "M");
     let mbase = t.u64();
     let msize = t.u64();
-    assert_eq!(t.str(), "Q");
+    let mut tok = t.str();
+    let mut extra: Vec<(u64, u64, bool)> = vec![];
+    if tok == "X" {
+        let k = t.usize();
+        for _ in 0..k {
+            extra.push((t.u64(), t.u64(), t.str() == "1"));
+        }
+        tok = t.str();
+    }
+    assert_eq!(tok, "Q");
     let nq = t.usize();
     let qs: Vec<u64> = (0..nq).map(|_| t.u64()).collect();
     assert_eq!(t.str(), "R");
@@ -175,9 +205,19 @@ fn run(line: &str) -> String {
     let mut out = vec![fmt_table(&sym)];
 
     // front-end S set-up: one module, symbols supplied by name
-    let modules = MinidumpModuleList::from_modules(vec![MinidumpModule::new(mbase, msize as u32, "m1")]);
+    let mut mods = vec![MinidumpModule::new(mbase, msize as u32, "m1")];
     let mut symbols = HashMap::new();
     symbols.insert("m1".to_string(), text.clone());
+    symbols.insert("".to_string(), text.clone()); // (debug_file, debug_id) modules have code_file ""
+    for (i, &(b, sz, hs)) in extra.iter().enumerate() {
+        let n = format!("x{}", i + 1);
+        mods.push(MinidumpModule::new(b, sz as u32, &n));
+        if hs {
+            symbols.insert(n, text.clone());
+        }
+    }
+    let names: Vec<String> = mods.iter().map(|m| m.code_file().to_string()).collect();
+    let modules = MinidumpModuleList::from_modules(mods);
     let symbolizer = Symbolizer::new(string_symbol_supplier(symbols));
     let system_info = SystemInfo {
         os: Os::Linux,
@@ -206,6 +246,8 @@ fn run(line: &str) -> String {
         let s = if f.module.is_none() {
             "-".to_string()
         } else {
+            let mname = f.module.as_ref().unwrap().code_file().to_string();
+            let idx = names.iter().position(|n| *n == mname).expect("module of the list");
             let func = match (&f.function_name, f.function_base, f.parameter_size) {
                 (Some(n), Some(b), Some(p)) => Some((n.clone(), b, p)),
                 (None, None, None) => None,
@@ -221,9 +263,10 @@ fn run(line: &str) -> String {
                 .iter()
                 .map(|i| (i.function_name.clone(), i.source_file_name.clone(), i.source_line))
                 .collect();
-            fmt_out(&func, &src, &inl)
+            format!("{}:{}", idx, fmt_out(&func, &src, &inl))
         };
-        out.push(format!("D{}/S{}", d, s));
+        let g = block_on(symbolizer.get_symbol_at_address("m1", debugid::DebugId::nil(), q));
+        out.push(format!("D{}/S{}/G{}", d, s, g.map(|n| nm(&n)).unwrap_or("-".into())));
     }
     out.join(";")
 }
